@@ -98,6 +98,7 @@ type c09Run struct {
 	verb   bool
 	nextID uint64
 	parked []uint64
+	orphan uint64 // event nonce of a parked bridge-call result whose call does not exist
 	wrap   bool
 }
 
@@ -126,6 +127,15 @@ func runC09(cs core.Case, verbose bool) core.CaseResult {
 			return res
 		}
 		r.parked = append(r.parked, n)
+	}
+	// a result event whose bridge call is not stored (reported for a nonce nobody has): observed and parked like
+	// any other; executing it makes the handler panic after it has consumed the parked claim
+	{
+		n, h := e.B.NextEvent()
+		if err := e.B.Quorum(e.B.BridgeCallResultClaim(n, h, 7_000_000, true, e.Other.Hex())); err == nil {
+			r.orphan = n
+			res.Count("orphan_results_parked", 1)
+		}
 	}
 	r.nextID = uint64(len(e.VictimTxIDs)) + 1
 	progs := 3
@@ -236,6 +246,7 @@ func (r *c09Run) lib(self int) []pstep {
 		{Label: "crosschain.increaseBridgeFee(next id)", To: cst(cc), Data: dat(fix.PackCrosschain("increaseBridgeFee", cn, new(big.Int).SetUint64(r.nextID), e.USDT.ERC20, big.NewInt(3))), Precompile: true},
 		{Label: "crosschain.executeClaim(parked 0)", To: cst(cc), Data: dat(fix.PackCrosschain("executeClaim", cn, new(big.Int).SetUint64(r.parked[0]))), Precompile: true},
 		{Label: "crosschain.executeClaim(parked 1)", To: cst(cc), Data: dat(fix.PackCrosschain("executeClaim", cn, new(big.Int).SetUint64(r.parked[1]))), Precompile: true},
+		{Label: "crosschain.executeClaim(result of an unknown call)", To: cst(cc), Data: dat(fix.PackCrosschain("executeClaim", cn, new(big.Int).SetUint64(r.orphan))), Precompile: true, Impossible: true},
 		{Label: "crosschain.garbage", To: cst(cc), Data: dat([]byte{0xde, 0xad, 0xbe, 0xef, 1, 2, 3}), Precompile: true, Impossible: true},
 		{Label: "staking.garbage", To: cst(st), Data: dat(append(fix.StakingPack("delegateV2", v0, fx(1))[:4], 0xff, 0xff)), Precompile: true, Impossible: true},
 	}
